@@ -1,0 +1,117 @@
+// Verification hooks. Compiled only with the build tag "verif"; the default
+// build and the test suite never see this file.
+
+//go:build verif
+// +build verif
+
+package decimal
+
+// ---- kernel pass-throughs (selected implementation and portable twin) ----
+
+func VerifMul10WW(x, y Word) (Word, Word)       { return mul10WW(x, y) }
+func VerifMul10WWg(x, y Word) (Word, Word)      { return mul10WW_g(x, y) }
+func VerifDiv10WW(x1, x0, y Word) (Word, Word)  { return div10WW(x1, x0, y) }
+func VerifDiv10WWg(x1, x0, y Word) (Word, Word) { return div10WW_g(x1, x0, y) }
+func VerifDiv10W(n1, n0 Word) (Word, Word)      { return div10W(n1, n0) }
+func VerifDiv10Wg(n1, n0 Word) (Word, Word)     { return div10W_g(n1, n0) }
+
+func VerifAdd10VV(z, x, y []Word) Word  { return add10VV(z, x, y) }
+func VerifAdd10VVg(z, x, y []Word) Word { return add10VV_g(z, x, y) }
+func VerifSub10VV(z, x, y []Word) Word  { return sub10VV(z, x, y) }
+func VerifSub10VVg(z, x, y []Word) Word { return sub10VV_g(z, x, y) }
+
+func VerifAdd10VW(z, x []Word, y Word) Word  { return add10VW(z, x, y) }
+func VerifAdd10VWg(z, x []Word, y Word) Word { return add10VW_g(z, x, y) }
+func VerifSub10VW(z, x []Word, y Word) Word  { return sub10VW(z, x, y) }
+func VerifSub10VWg(z, x []Word, y Word) Word { return sub10VW_g(z, x, y) }
+
+func VerifShl10VU(z, x []Word, s uint) Word  { return shl10VU(z, x, s) }
+func VerifShl10VUg(z, x []Word, s uint) Word { return shl10VU_g(z, x, s) }
+func VerifShr10VU(z, x []Word, s uint) Word  { return shr10VU(z, x, s) }
+func VerifShr10VUg(z, x []Word, s uint) Word { return shr10VU_g(z, x, s) }
+
+func VerifMulAdd10VWW(z, x []Word, y, r Word) Word  { return mulAdd10VWW(z, x, y, r) }
+func VerifMulAdd10VWWg(z, x []Word, y, r Word) Word { return mulAdd10VWW_g(z, x, y, r) }
+func VerifAddMul10VVW(z, x []Word, y Word) Word     { return addMul10VVW(z, x, y) }
+func VerifAddMul10VVWg(z, x []Word, y Word) Word    { return addMul10VVW_g(z, x, y) }
+func VerifDiv10VWW(z, x []Word, y, xn Word) Word    { return div10VWW(z, x, y, xn) }
+func VerifDiv10VWWg(z, x []Word, y, xn Word) Word   { return div10VWW_g(z, x, y, xn) }
+
+func VerifDivWVW(z []Word, xn Word, x []Word, y Word) Word  { return divWVW(z, xn, x, y) }
+func VerifDivWVWg(z []Word, xn Word, x []Word, y Word) Word { return divWVW_g(z, xn, x, y) }
+func VerifMulAddWWWg(x, y, c Word) (Word, Word)             { return mulAddWWW_g(x, y, c) }
+
+// ---- natural-number layer ----
+
+// VerifDecMul returns x*y computed by dec.mul, storing into z if possible.
+func VerifDecMul(z, x, y []Word) []Word { return dec(z).mul(dec(x), dec(y)) }
+
+// VerifDecSqr returns x*x computed by dec.sqr.
+func VerifDecSqr(z, x []Word) []Word { return dec(z).sqr(dec(x)) }
+
+// VerifDecDiv returns quotient and remainder of u/v computed by dec.div.
+func VerifDecDiv(z, z2, u, v []Word) (q, r []Word) {
+	qq, rr := dec(z).div(dec(z2), dec(u), dec(v))
+	return qq, rr
+}
+
+// VerifThresholds returns the three tuning variables.
+func VerifThresholds() (karatsuba, basicSqr, karatsubaSqr int) {
+	return decKaratsubaThreshold, decBasicSqrThreshold, decKaratsubaSqrThreshold
+}
+
+// VerifSetThresholds sets the three tuning variables.
+func VerifSetThresholds(karatsuba, basicSqr, karatsubaSqr int) {
+	decKaratsubaThreshold, decBasicSqrThreshold, decKaratsubaSqrThreshold = karatsuba, basicSqr, karatsubaSqr
+}
+
+// VerifDivRecursiveThreshold returns the (constant) recursive-division threshold.
+func VerifDivRecursiveThreshold() int { return divRecursiveThreshold }
+
+// ---- package-level shared constants used by Sqrt ----
+
+func VerifSqrtConsts() (*Decimal, *Decimal) { return oneHalf, three }
+func VerifSetSqrtConsts(h, t *Decimal)      { oneHalf, three = h, t }
+
+// ---- scheduler / pool seams (only reached from overlay-generated code) ----
+
+var (
+	// VerifPoolGetFn, when non-nil, replaces decPool.Get.
+	VerifPoolGetFn func() interface{}
+	// VerifPoolPutFn, when non-nil, replaces decPool.Put.
+	VerifPoolPutFn func(x interface{})
+	// VerifPointFn, when non-nil, is called before every kernel call.
+	VerifPointFn func(name string)
+)
+
+func verifPoolGet() interface{} {
+	if VerifPoolGetFn != nil {
+		return VerifPoolGetFn()
+	}
+	return decPool.Get()
+}
+
+func verifPoolPut(x interface{}) {
+	if VerifPoolPutFn != nil {
+		VerifPoolPutFn(x)
+		return
+	}
+	decPool.Put(x)
+}
+
+func verifPoint(name string) {
+	if VerifPointFn != nil {
+		VerifPointFn(name)
+	}
+}
+
+// VerifDecPtr converts between *[]Word and the pooled *dec type.
+func VerifDecPtr(p *[]Word) interface{} { return (*dec)(p) }
+
+// VerifFromDecPtr is the inverse of VerifDecPtr.
+func VerifFromDecPtr(v interface{}) *[]Word {
+	if d, ok := v.(*dec); ok {
+		return (*[]Word)(d)
+	}
+	return nil
+}
